@@ -53,6 +53,8 @@ def types():
             _TYPES.setdefault(n, t)      # area types no table refers to (any more) are still decodable by name
         for t in (Command, Response, CommandResponseStream):
             _TYPES[t.__name__] = t
+        from tpmstream.spec.commands.params_common import TPMS_PARAMS
+        _TYPES.setdefault("TPMS_PARAMS", TPMS_PARAMS)
     return _TYPES
 
 
